@@ -147,9 +147,10 @@ fn hi_f(i: &Interval<f64>) -> f64 {
 #[kani::proof]
 fn c07_contains_f64() {
     let a = any_iv_f64();
+    // the probe may be NaN (a member of no interval: incomparable with every bound); the stored bounds are not
     let x: f64 = kani::any();
-    kani::assume(!x.is_nan());
     let want = lo_f(&a) <= x && x <= hi_f(&a);
+    kani::cover!(x.is_nan(), "NaN probe");
     kani::cover!(x == 0.0 && x.is_sign_negative() && want, "-0.0 member");
     kani::cover!(x.is_infinite() && want, "infinite member");
     assert!(a.contains(&x) == want, "C07:contains:f64");
